@@ -256,6 +256,32 @@ def tablesClosed (p : Program) (m : TableMap) : Bool :=
       (if i = 0 || (incomingEdges p s b).isEmpty then tb.isEmpty else true) &&
       (s.term.blocks.all fun a => (tablesSent p m a b.tid).all fun x => tb.subsetOf x)
 
+/-- what a run needs from the tables beyond `tablesClosed`: the first block of every function has a value,
+and so has every block some table is sent to (`none` means "not reached by the fixpoint") -/
+def tablesReach (p : Program) (m : TableMap) : Bool :=
+  p.subs.all fun s =>
+    (match s.term.blocks with
+      | [] => true
+      | e :: _ => (m.get e.tid).isSome) &&
+    s.term.blocks.all fun a => s.term.blocks.all fun b =>
+      (tablesSent p m a b.tid).isEmpty || (m.get b.tid).isSome
+
+/-- the control-flow graph of analysis/graph.rs has an edge for the continuation of this jump: no `CallOther`
+with a return site (known limitation), a `Call` with a return site targets an extern symbol or a function with a
+returning block -/
+def jmpCfgOk (p : Program) : Jmp → Bool
+  | .CallOther _ (some _) => false
+  | .Call callee (some _) =>
+    isExternTid p callee ||
+      (match internalCallee p callee with
+        | some f => f.term.blocks.any hasReturnJmp
+        | none => false)
+  | _ => true
+
+/-- at most two jumps per block, and every jump satisfies `jmpCfgOk` -/
+def subCfgOk (p : Program) (s : Term Sub) : Bool :=
+  s.term.blocks.all fun b => decide (b.term.jmps.length ≤ 2) && b.term.jmps.all fun j => jmpCfgOk p j.term
+
 /-- the tables agree as maps (block by block, entry by entry) -/
 def tableMapsAgree (p : Program) (m m' : TableMap) : Bool :=
   p.subs.all fun s => s.term.blocks.all fun b =>
